@@ -36,7 +36,7 @@ def gen_case(rng, n_max=5, n_min=2, n=None):
     else:
         order = []
     return {"cands": cands, "ballots": [list(b) if b is not None else None for b in prof], "winner": winner,
-            "asn": rng.choice(("cp", "bp", "cp", "bp", "cp", "bp", "inverse_vote_margin", "share_not_in_margin")), "order": order, "informal": rng.choice((0, 0, 3)), "warm": rng.random() < 0.25,
+            "asn": rng.choice(("cp", "bp", "cp", "bp", "cp", "bp", "inverse_vote_margin", "share_not_in_margin", "offset_inverse_margin")), "order": order, "informal": rng.choice((0, 0, 3)), "warm": rng.random() < 0.25,
             "dict_order": rng.choice(("preference", "candidate", "reversed")), "cname": rng.choice(("con1", "con1", "con1", 1)),
             "rank_gaps": rng.random() < 0.3,
             "stored_winner": rng.choice(cands) if rng.random() < 0.25 else None}
@@ -49,6 +49,9 @@ def run_raire(case, rec, monitor):
     from shangrla.raire.sample_estimator import bp_estimate, cp_estimate
     cands, winner = case["cands"], case["winner"]
     prof = [tuple(b) if b is not None else None for b in case["ballots"]]
+    if case.get("weights"):
+        # a large electorate written compactly: each listed ranking stands for that many ballots
+        prof = [b for b, w in zip(prof, case["weights"]) for _ in range(w)]
     # the contest identifier is an opaque key: a string in RAIRE files, an integer in the library's text format
     cname = case.get("cname", "con1")
     if not isinstance(cname, str):
@@ -83,7 +86,10 @@ def run_raire(case, rec, monitor):
     # such function); the extra ones take values at and below 1, where the shipped ones never go
     asn_func = {"cp": cp_estimate, "bp": bp_estimate,
                 "inverse_vote_margin": lambda w, l, o, t: 1.0 / (w - l),
-                "share_not_in_margin": lambda w, l, o, t: 1.0 - (w - l) / t}[case["asn"]]
+                "share_not_in_margin": lambda w, l, o, t: 1.0 - (w - l) / t,
+                # distinct difficulties that agree to five or six digits (what the shipped functions give for margins of
+                # 100 000 votes and more), at a size where the brute-force optimum is cheap
+                "offset_inverse_margin": lambda w, l, o, t: 1e5 + 1.0 / (w - l)}[case["asn"]]
     if case["asn"] not in ("cp", "bp"):
         rec.count("runs_with_a_difficulty_function_that_is_not_shipped")
     # the Contest object stores the winner named in the file it came from; the winner to be audited is the ARGUMENT
@@ -121,3 +127,22 @@ def key_of(a, NEB, NEN):
     if isinstance(a, NEB):
         return ("NEB", a.winner, a.loser)
     return None
+
+
+def gen_large_case(rng):
+    """A large electorate (3-4 candidates, 4-5 distinct rankings, each cast K + d times, K about 100 000, |d| <= 3): margins
+    of about K votes that differ from one another by a few votes, so that distinct difficulties agree to five digits."""
+    n = rng.choice((3, 3, 4))
+    cands = [chr(65 + i) for i in range(n)]
+    ranks = set()
+    while len(ranks) < rng.randint(4, 5):
+        k = rng.randint(1, n)
+        ranks.add(tuple(rng.sample(cands, k)))
+    ranks = sorted(ranks)
+    K = rng.choice((100003, 100500, 120000))
+    weights = [K + rng.randint(-3, 3) for _ in ranks]
+    cnt = irv.counter_of([b for b, w in zip(ranks, weights) for _ in range(w)])
+    winner = irv.irv_order(cands, cnt)[-1]
+    return {"cands": cands, "ballots": [list(b) for b in ranks], "weights": weights, "winner": winner, "asn": rng.choice(("cp", "bp")),
+            "order": [], "informal": 0, "warm": False, "dict_order": "preference", "cname": "con1", "rank_gaps": False,
+            "stored_winner": None}
